@@ -93,9 +93,9 @@ def hdap_checksum(checked: bytes) -> int:
     return (((sum(checked) & 0xFF) ^ 0xFF) + 0x33) & 0xFF
 
 
-def rrs_hdap(opcode: int, radio_id: int, reliable: bool) -> bytes:
-    """| service (0x11, 0x80 = reliable) | opcode (2) | payload length (2) | 10.<id> | checksum | 0x03 |"""
-    checked = bytes([0x00, opcode, 0x00, 0x04, 0x0A]) + radio_id.to_bytes(3, "big")
+def rrs_hdap(opcode: int, radio_id: int, reliable: bool, extra: bytes = b"") -> bytes:
+    """| service (0x11, 0x80 = reliable) | opcode (2) | payload length (2) | 10.<id> [| result, renew time (4) | radio state] | checksum | 0x03 |"""
+    checked = bytes([0x00, opcode, 0x00, 0x04 + len(extra), 0x0A]) + radio_id.to_bytes(3, "big") + extra
     return bytes([0x11 | (0x80 if reliable else 0)]) + checked + bytes([hdap_checksum(checked), 0x03])
 
 
@@ -126,7 +126,14 @@ def build(cls, rnd, radios):
     def rrs(op):
         rid = rnd.choice(radios)
         meta["radio"] = rid
-        return rrs_hdap(op, rid, rnd.random() < 0.2)
+        extra = b""
+        if op == 0x02 and rnd.random() < 0.5:
+            # the other RRS messages of the protocol, as another registrar (or a radio answering a status check) sends them: a registration
+            # answer (result, renewal period) / a status-check answer (radio state).  They are data messages like any other: acknowledged once,
+            # never answered by an RRS answer, and they say nothing about the radio's registration
+            op = rnd.choice([0x80, 0x82])
+            extra = (bytes([rnd.choice([0, 1, 2])]) + rnd.choice([1, 300, 0xFFFE, rnd.randrange(1, 0xFFFF)]).to_bytes(4, "big")) if op == 0x80 else bytes([rnd.randrange(2)])
+        return rrs_hdap(op, rid, rnd.random() < 0.2, extra)
 
     def opts():
         o = _opts(rnd)
